@@ -95,6 +95,11 @@ func c37Oracle(src string, from, to int) c37Want {
 	return w
 }
 
+// c37Reported holds the field-violation keys already passed to Violate (which
+// keeps only the first case per key anyway); it saves formatting a message for
+// each of the many cases of a defect.
+var c37Reported sync.Map
+
 func c37Min(a, b int) int {
 	if a < b {
 		return a
@@ -174,9 +179,8 @@ func c37In(s string, list []string) bool {
 
 // c37CheckShow checks Context.Show: description, layout (same line iff the
 // body has one line), shown text = text of the lines containing the range,
-// marked part = the body. judgeDesc is false when the position fields already
-// failed (the description is then a consequence of that violation).
-func c37CheckShow(out, name string, w c37Want, judgeDesc bool) (string, string) {
+// marked part = the body. Only called when the context's fields are right.
+func c37CheckShow(out, name string, w c37Want) (string, string) {
 	i := 0
 	for ; i+1 < len(out); i++ {
 		if out[i] == ':' && (out[i+1] == ' ' || out[i+1] == '\n') {
@@ -187,7 +191,7 @@ func c37CheckShow(out, name string, w c37Want, judgeDesc bool) (string, string) 
 		return "show-layout", "no ': ' or ':\\n' after the range description"
 	}
 	desc, rest := out[:i], out[i+1:]
-	if judgeDesc && !c37In(desc, c37Descs(name, w)) {
+	if !c37In(desc, c37Descs(name, w)) {
 		return "show-description", fmt.Sprintf("description %q, want one of %q", desc, c37Descs(name, w))
 	}
 	cont := ""
@@ -241,18 +245,21 @@ func c37CheckShow(out, name string, w c37Want, judgeDesc bool) (string, string) 
 // context came from. Returns whether the position fields were right.
 func c37CheckContext(c *vk.Ctx, what, src string, ctx *diag.Context, from, to int, w c37Want) bool {
 	k, m := c37CheckFields(ctx, c37Name, from, to, w)
-	if k != "" {
+	if _, seen := c37Reported.LoadOrStore(k, true); k != "" && !seen {
 		c.Violate(k, fmt.Sprintf("%s: source %q range [%d,%d): %s", what, src, from, to, m), map[string]any{"what": what, "src": src, "from": from, "to": to})
+	}
+	if k != "" {
+		return false // what Show prints is a consequence of the wrong field
 	}
 	var out string
 	if p := vk.Try(func() { out = ctx.Show(c37Indent) }); p != "" {
 		c.Violate("show-panic:"+vk.PanicSite(p), fmt.Sprintf("%s: source %q range [%d,%d): Show panicked: %s", what, src, from, to, p), src)
-		return k == ""
+		return true
 	}
-	if sk, sm := c37CheckShow(out, c37Name, w, k == ""); sk != "" {
+	if sk, sm := c37CheckShow(out, c37Name, w); sk != "" {
 		c.Violate(sk, fmt.Sprintf("%s: source %q range [%d,%d): Show -> %q: %s", what, src, from, to, out, sm), map[string]any{"what": what, "src": src, "from": from, "to": to})
 	}
-	return k == ""
+	return true
 }
 
 // c37CheckCarried checks a context carried by a real error: it must be the
@@ -300,7 +307,7 @@ func TestVerifC37(t *testing.T) {
 		diag.ContextBodyStartMarker, diag.ContextBodyEndMarker = c37MarkS, c37MarkE
 
 		// Part A.
-		c.EnumSeqs(len(c37Alphabet), na, func(l *vk.Local, idx []int) {
+		c37Enum(c, len(c37Alphabet), na, 4, func(l *vk.Local, idx []int) {
 			src := vk.Join(c37Alphabet, idx)
 			for from := 0; from <= len(src); from++ {
 				for to := from; to <= len(src); to++ {
@@ -328,14 +335,14 @@ func TestVerifC37(t *testing.T) {
 		os.MkdirAll(empty, 0o755)
 		os.Setenv("PATH", empty)
 		pool := sync.Pool{New: func() any { return eval.NewEvaler() }}
-		c.EnumSeqs(len(c37Tokens), nb, func(l *vk.Local, idx []int) {
+		c37Enum(c, len(c37Tokens), nb, 2, func(l *vk.Local, idx []int) {
 			code := vk.Join(c37Tokens, idx)
 			src := parse.Source{Name: c37Name, Code: code}
 			ev := pool.Get().(*eval.Evaler)
 			defer pool.Put(ev)
 			var perr, cerr, xerr error
 			if p := vk.Try(func() { perr, _, cerr = ev.Check(src, nil) }); p != "" {
-				c.Add("not_judged_check_panicked", 1) // C17's business
+				c37Panic(c, "Check", code, p)
 				l.Case("B/check-panic")
 				return
 			}
@@ -354,7 +361,7 @@ func TestVerifC37(t *testing.T) {
 			}
 			if perr == nil && cerr == nil {
 				if p := vk.Try(func() { xerr = ev.Eval(src, eval.EvalCfg{}) }); p != "" {
-					c.Add("not_judged_eval_panicked", 1)
+					c37Panic(c, "Eval", code, p)
 					l.Case("B/eval-panic")
 					return
 				}
@@ -400,4 +407,55 @@ func c37CheckErrorString(c *vk.Ctx, tag, src, got, msg string, ctx *diag.Context
 		}
 	}
 	c.Violate("error-string", fmt.Sprintf("program %q: Error() = %q, want %q with one of the descriptions %q", src, got, tag+": <range>: "+msg, c37Descs(c37Name, w)), src)
+}
+
+// c37Panic handles a panic of the parser, compiler or evaluator: building the
+// context of a range inside the source must not panic (a panic raised in
+// pkg/diag/context.go is this property's business); any other panic is left
+// to the no-panic property C17.
+func c37Panic(c *vk.Ctx, op, code, p string) {
+	if vk.PanicSite(p) == "context.go" {
+		c.Violate("newcontext-panic:context.go", fmt.Sprintf("%s of program %q panicked while building an error context: %s", op, code, p), code)
+		return
+	}
+	c.Add("not_judged_"+strings.ToLower(op)+"_panicked_elsewhere", 1)
+}
+
+// c37Enum calls f for every sequence over nsym symbols of length 0..maxLen,
+// strictly shortest first: lengths <= seqLen sequentially in lexicographic
+// order (so the reported counterexample of a small defect is the same minimal
+// one on every run), longer lengths one length at a time on all workers.
+func c37Enum(c *vk.Ctx, nsym, maxLen, seqLen int, f func(l *vk.Local, idx []int)) {
+	total := 1
+	for n := 0; n <= maxLen; n++ {
+		decode := func(idx []int, i int) {
+			for k := n - 1; k >= 0; k-- {
+				idx[k] = i % nsym
+				i /= nsym
+			}
+		}
+		if n <= seqLen {
+			l := vk.NewLocal()
+			idx := make([]int, n)
+			for i := 0; i < total; i++ {
+				decode(idx, i)
+				f(l, idx)
+			}
+			c.Merge(l)
+		} else {
+			c.Parallel(total, func(l *vk.Local, i int) {
+				if c.IsCapped() {
+					return
+				}
+				if c.TimeUp() {
+					c.Capped(fmt.Sprintf("time budget reached while enumerating length %d", n))
+					return
+				}
+				idx := make([]int, n)
+				decode(idx, i)
+				f(l, idx)
+			})
+		}
+		total *= nsym
+	}
 }
